@@ -35,6 +35,10 @@ struct World {
 fn real_name(n: &str) -> String {
     match n {
         "lf" => "(listfile)".to_string(),
+        // names with non-ASCII letters (2-byte code points, sharp s, dotted capital I, a 3-byte code point): MPQ
+        // hashing folds ASCII case only, so the spellings below change ASCII letters and leave these bytes alone
+        "u1" => "Donn\u{e9}es\\Carte_\u{e9}t\u{e9}.txt".to_string(),
+        "u2" => "Gr\u{f6}\u{df}e_\u{130}x_\u{20ac}.ttf".to_string(),
         _ => format!("Data\\Sub\\{n}.dat"),
     }
 }
@@ -43,8 +47,8 @@ fn real_name(n: &str) -> String {
 fn stored_name(a: &str, n: &str) -> String {
     let r = real_name(n);
     match a {
-        "A4" => r.to_uppercase(),
-        "A3" => r.to_lowercase(),
+        "A4" => r.to_ascii_uppercase(),
+        "A3" => r.to_ascii_lowercase(),
         _ => r,
     }
 }
@@ -480,7 +484,7 @@ fn spellings(real: &str) -> [String; 3] {
         .chars()
         .map(|c| if c.is_ascii_lowercase() { c.to_ascii_uppercase() } else { c.to_ascii_lowercase() })
         .collect();
-    [real.to_string(), flipped.replace('\\', "/"), real.to_lowercase()]
+    [real.to_string(), flipped.replace('\\', "/"), real.to_ascii_lowercase()]
 }
 
 fn read_obs(chain: &mut PatchChain, name: &str) -> Value {
